@@ -22,6 +22,9 @@ var verifC12Src = []string{
 	"select id, k + @x from t",
 	"select k from t union select k from t",
 	"select id from t where exists (select 1 from t as z where z.k = t.k and z.id < t.id)",
+	// three analytic functions with different orders: each re-sorts the rows, so the order in which
+	// csvq evaluates them decides the order of the result
+	"select id, rank() over (order by id), sum(id) over (order by id desc), first_value(id) over (order by k, id) from t",
 }
 var verifC12Queries []parser.SelectQuery
 var verifC12Join parser.SelectQuery
